@@ -17,6 +17,8 @@ TESTS = {"starts_with", "can_consume", "is_copula_starts_at_head", "head_char"}
 SLOT_METHODS = {"is_none", "is_some", "insert", "take", "unwrap", "replace", "get_or_insert", "as_ref", "clone"}
 BUFFER_METHODS = {"push", "push_str", "clear"}
 STATE_RECV = (("self",), ("parser",), ("state",))
+ITER_LOOPS = {"for_each", "try_for_each", "all", "any", "map", "filter", "filter_map", "find", "find_map", "position", "take_while", "skip_while",
+              "fold", "flat_map", "inspect", "map_while"}
 LOCAL_PREFIXES = ("parse_", "consume_", "form_", "build_", "transform_", "from_parse", "new_image", "set_atom_name", "push_components")
 
 
@@ -428,7 +430,12 @@ class Skel:
             m = e["method"]
             inner = self.ops(e["recv"])
             for a in e["args"]:
-                inner += self.ops(a)
+                if m in ITER_LOOPS and strip(a).get("k") == "Closure":
+                    # `it.for_each(|x| B)` is `for x in it { B }`: the closure an iterator adaptor runs per element is a loop body
+                    b_ = self.norm(self.ops(strip(a)["body"]))
+                    inner += [("loop", b_)] if b_ else []
+                else:
+                    inner += self.ops(a)
             if rp and len(rp) == 1 and rp[0] in STATE_NAMES and m in CURSOR:
                 return inner + [("cur", m) + tuple(argkey(a) for a in e["args"])]
             if rp and len(rp) == 1 and rp[0] in STATE_NAMES and m in TESTS:
@@ -473,9 +480,22 @@ class Skel:
             if "TryDesugar" in src:
                 return sc            # `?`: the ("?",) marker was produced by the branch() call
             if "ForLoop" in src:
-                body = []
-                for a in e["arms"]:
-                    body += self.ops(a["body"])
+                # `for pat in it { BODY }` desugars to match into_iter(it) { mut iter => loop { match next(&mut iter) { None => break,
+                # Some(pat) => BODY } } }: the loop body is BODY
+                body = None
+                for n in hir.walk(e["arms"][0]["body"]):
+                    if n.get("k") == "Match" and n is not e:
+                        for a in n["arms"]:
+                            try:
+                                if hir.pat_variants(a["pat"]) == {"Some"}:
+                                    body = self.ops(a["body"])
+                            except hir.Unrecognised:
+                                pass
+                        break
+                if body is None:
+                    body = []
+                    for a in e["arms"]:
+                        body += self.ops(a["body"])
                 return sc + [("loop", self.norm(body))]
             # `match cond { true => A, false => B }` is the same production as `if cond { A } else { B }`
             br = self.as_branch(e)
